@@ -21,6 +21,7 @@
 (*       "Meta"  front matter (only as the first block; text is its value) *)
 (*       "QH" / "QP"  heading (level lvl) / paragraph inside a block quote *)
 (*       "QRef"  a block reference inside a block quote                    *)
+(*       "QR"    a block reference under a heading inside a block quote    *)
 (*       "IRef"  a list item whose second paragraph is a block reference   *)
 (*               (neither is an inclusion by a heading: see Includes)       *)
 (* Link  == [url : Url, kind, text, ext]                                   *)
